@@ -23,6 +23,7 @@ func init() {
 			"(R5) result arity: the remote TransitionResponse is accepted only if len(Results) equals the number of transitions sent (the local side: C09.R1); " +
 			"(R6) core.Apply mutates only its own copy: every map update/delete targets memory derived from base.Copy(…)/change.New.Copy(…), inserted subtrees are copies, and a content map is allocated only when inserting (change.New != nil), never when deleting; a missing parent is an error. " +
 			"(R6 additions) Apply applies every change: no way through an iteration of its loop is without effect, a helper that walks to the parent is followed, and a tree pointer carried across iterations is re-derived when the root is replaced; " +
+			"(R7, shared with C03.R5) Entry.synchronizable — the filter every planned New value passes through — returns the receiver only where there is nothing to filter and otherwise a fresh entry holding exactly the non-nil synchronizable() images of the children, so no unsynchronizable content at any depth can reach the ancestor through a reported result; " +
 			"Not decided: that Apply succeeds for every possible outcome mix (needs reasoning over trees), content of the serialized bytes.",
 		Assumptions: []string{"Entry.Copy(DeepPreservingLeaves) returns fresh directory nodes (C07.R1)"},
 		Run:         runC05,
@@ -30,11 +31,23 @@ func init() {
 }
 
 func runC05(c *eng.Ctx) {
-	syn := c.MustFunc("R1", syncPkg, "controller.synchronize")
+	syn, apply, rec, load := c05SaveRule(c, "R1")
 	if syn == nil {
 		return
 	}
-	var apply, rec, load *ssa.Call
+	c05ApplyList(c, "R2", syn, apply, rec)
+	c05Rest(c, syn, load)
+}
+
+// c05SaveRule: the archive written at the end of a cycle holds the tree Apply
+// produced and EnsureValid accepted. Shared with C11 (the safety checks of the
+// first cycle after a restart run against the SAVED ancestor; an archive that
+// lags behind makes «root emptied / deleted» invisible to them).
+func c05SaveRule(c *eng.Ctx, r1 string) (syn *ssa.Function, apply, rec, load *ssa.Call) {
+	syn = c.MustFunc(r1, syncPkg, "controller.synchronize")
+	if syn == nil {
+		return nil, nil, nil, nil
+	}
 	var save ssa.CallInstruction
 	for _, call := range eng.Calls(syn) {
 		switch eng.CalleeName(call) {
@@ -49,8 +62,8 @@ func runC05(c *eng.Ctx) {
 		}
 	}
 	if apply == nil || rec == nil || save == nil || load == nil {
-		c.Problem("R1", "Apply/Reconcile/save/load calls not all found in synchronize")
-		return
+		c.Problem(r1, "Apply/Reconcile/save/load calls not all found in synchronize")
+		return nil, nil, nil, nil
 	}
 	var applied ssa.Value
 	for _, ref := range *apply.Referrers() {
@@ -76,9 +89,9 @@ func runC05(c *eng.Ctx) {
 			}
 		}
 	}
-	c.Check("R1", "save-after-apply-ok", save.Pos(), applyOK, "the archive is saved only if core.Apply succeeded")
-	c.Check("R1", "save-after-validate", save.Pos(), validOK, "the archive is saved only if the applied ancestor passed EnsureValid(true)", eng.AtomsText(g)[:min(300, len(eng.AtomsText(g)))])
-	c.Check("R1", "save-path", save.Pos(), eng.Render(save.Common().Args[0]) == "p0.archivePath", "the save targets the session's archive path", eng.Render(save.Common().Args[0]))
+	c.Check(r1, "save-after-apply-ok", save.Pos(), applyOK, "the archive is saved only if core.Apply succeeded")
+	c.Check(r1, "save-after-validate", save.Pos(), validOK, "the archive is saved only if the applied ancestor passed EnsureValid(true)", eng.AtomsText(g)[:min(300, len(eng.AtomsText(g)))])
+	c.Check(r1, "save-path", save.Pos(), eng.Render(save.Common().Args[0]) == "p0.archivePath", "the save targets the session's archive path", eng.Render(save.Common().Args[0]))
 	// archive.Content = applied tree
 	contentOK := false
 	eng.EachInstr(syn, func(i ssa.Instruction) {
@@ -90,12 +103,14 @@ func runC05(c *eng.Ctx) {
 			}
 		}
 	})
-	c.Check("R1", "saved-content-is-applied-tree", save.Pos(), contentOK, "the archive's Content is the tree returned by Apply (and validated)")
+	c.Check(r1, "saved-content-is-applied-tree", save.Pos(), contentOK, "the archive's Content is the tree returned by Apply (and validated)")
 	// The archive object saved is the one loaded.
-	c.Check("R1", "same-archive-object", save.Pos(), eng.Render(save.Common().Args[1]) == eng.Render(load.Call.Args[1]), "the archive object saved is the one loaded and updated", eng.Render(save.Common().Args[1]))
+	c.Check(r1, "same-archive-object", save.Pos(), eng.Render(save.Common().Args[1]) == eng.Render(load.Call.Args[1]), "the archive object saved is the one loaded and updated", eng.Render(save.Common().Args[1]))
 
-	c05ApplyList(c, "R2", syn, apply, rec)
+	return syn, apply, rec, load
+}
 
+func c05Rest(c *eng.Ctx, syn *ssa.Function, load *ssa.Call) {
 	// R3.
 	var firstUse ssa.Instruction
 	var lg []eng.Atom
@@ -187,6 +202,13 @@ func runC05(c *eng.Ctx) {
 	}
 
 	c05Apply(c, "R6")
+
+	// R7: what a transition may report is a prefix-closed part of what was
+	// planned, and what is planned is X.synchronizable(): the filter must remove
+	// unsynchronizable content at every depth (shared with C03.R5), or the tree
+	// Apply produces fails EnsureValid(true) and the archive is never saved.
+	kinds, _ := c.P.ConstsOfType(corePkg, "EntryKind")
+	c03Synchronizable(c, "R7", kinds)
 }
 
 func p0IsPhiOf(v, want ssa.Value) bool {
